@@ -98,6 +98,34 @@ def plant_api(asm, acc, fault_class, fault, pos, depth, compress, root=None):
             key=classify(fault_class, fault, e))
 
 
+def vanished_include(asm, acc, root, kind, compress):
+    """history: the program assembled while its include existed; the file is removed; the same program must now be refused as a
+    missing include at the include line (AssemblerError), not with an internal exception"""
+    name = 'gone_%s.%s' % (kind, 'asm' if kind == 'include' else 'bin')
+    path = os.path.join(root, name)
+    with open(path, 'w') as f:
+        f.write('nop\n' if kind == 'include' else 'AB')
+    main = os.path.join(root, 'vmain_%s.asm' % kind)
+    lines = ['addi x1, x1, 1', 'nop', '%s %s' % (kind, name), 'ret']
+    with open(main, 'w') as f:
+        f.write('\n'.join(lines) + '\n')
+    first = monitors.observe(asm, main, compress, tap=False)
+    os.unlink(path)
+    o = monitors.observe(asm, main, compress, tap=False)
+    acc['n'] += 1
+    acc['ntkeys'].add(core.ckey('vanished', kind, compress))
+    acc['ctr']['vanished_include_cases'] += 1
+    case = {'kind': 'vanished', 'what': kind, 'compress': compress}
+    if not first.ok:
+        acc['ctr']['vanished_first_call_refused'] += 1
+        return
+    if o.ok:
+        core.add_viol(acc, '`%s %s` still assembles after the file was removed (earlier call in the same interpreter resolved it)' % (kind, name), case, {})
+    elif not o.exc['is_asm_error'] or o.exc.get('number') != 3 or os.path.realpath(str(o.exc.get('file'))) != os.path.realpath(main):
+        core.add_viol(acc, '`%s %s` after the file was removed: %s: %s at %r line %r - expected the assembler\'s own error at %s line 3' % (
+            kind, name, o.exc['type'], o.exc['msg'][:80], o.exc.get('file'), o.exc.get('number'), os.path.basename(main)), case, {})
+
+
 def carrier(fault):
     h = fault.split()[0] if fault.split() else ''
     if len(fault.split()) > 1 and fault.split()[1] == '=':
@@ -160,6 +188,10 @@ def run_shard(sh, deadline):
                 acc['ctr']['base_program_ok'] += 1 if o.ok else 0
                 if not o.ok:
                     acc['notes'].append('base program refused: %r' % (o.exc,))
+        if sh.get('base_check'):
+            for kind in ('include', 'include_bytes'):
+                for compress in (False, True):
+                    vanished_include(asm, acc, root, kind, compress)
         for (cls, fault, pos, depth, compress, via) in sh['plants']:
             if via == 'api':
                 plant_api(asm, acc, cls, fault, pos, depth, compress, root)
@@ -238,7 +270,9 @@ def replay(case):
     acc = core.new_acc()
     root = tempfile.mkdtemp(prefix='bbv-c15-')
     try:
-        if case['kind'] == 'api':
+        if case['kind'] == 'vanished':
+            vanished_include(asm, acc, root, case['what'], case['compress'])
+        elif case['kind'] == 'api':
             plant_api(asm, acc, case['class'], case['fault'], case['pos'], case['depth'], case['compress'], root)
         else:
             plant_cli(asm, acc, case['class'], case['fault'], case['pos'], case['depth'], case['compress'])
